@@ -1003,3 +1003,93 @@ func builderOwner(p *pwPath, b ssa.Value) ssa.Value {
 	}
 	return b
 }
+
+// renderedTextRule (C01.R6): text that already went through the sink (the String() of a builder)
+// leaves the evaluator package only as a string result of a function (the rendered template, the
+// rendered block handed to a helper) or re-labelled as template.HTML. Boxed into an interface as a
+// plain string it would become a template value again and be escaped a second time.
+func renderedTextRule(r *Run, rule string) {
+	w := r.W
+	w.SSA()
+	pkg := w.SSAPkg("")
+	if pkg == nil {
+		r.Lost(rule, "evaluator package")
+		return
+	}
+	n := 0
+	for _, fn := range functionsOf(pkg) {
+		for _, b := range fn.Blocks {
+			for _, ins := range b.Instrs {
+				call, ok := ins.(*ssa.Call)
+				if !ok {
+					continue
+				}
+				cal := call.Call.StaticCallee()
+				if cal == nil || cal.Signature.Recv() == nil || cal.Name() != "String" || !namedIs(cal.Signature.Recv().Type(), "strings", "Builder") {
+					continue
+				}
+				// a Stringer implementation builds its own text with a builder: not rendered output
+				if fn.Signature.Recv() != nil && fn.Name() == "String" && fn.Signature.Params().Len() == 0 {
+					continue
+				}
+				n++
+				name := ssaName(fn)
+				con := "use of " + valueText(call) + " = builder.String()"
+				bad := ""
+				seen := map[ssa.Value]bool{}
+				var follow func(v ssa.Value, depth int)
+				follow = func(v ssa.Value, depth int) {
+					if seen[v] || depth > 6 || v.Referrers() == nil {
+						return
+					}
+					seen[v] = true
+					for _, ref := range *v.Referrers() {
+						switch x := ref.(type) {
+						case *ssa.MakeInterface:
+							if isBasicKind(x.X.Type(), types.String) && !isNamed(x.X.Type()) {
+								// boxed as a plain string: fine only as an operand of an error message or a log call
+								okUse := true
+								for _, r2 := range *x.Referrers() {
+									switch y := r2.(type) {
+									case *ssa.Store:
+										// an element of a variadic argument list (fmt.Errorf(..., text))
+										if _, isIA := y.Addr.(*ssa.IndexAddr); !isIA {
+											okUse = false
+										}
+									case *ssa.DebugRef:
+									default:
+										okUse = false
+									}
+								}
+								if !okUse {
+									bad = "rendered text is boxed into an interface as a plain string: as a template value it is escaped a second time (markup comes out as &lt;b&gt;); it must be template.HTML"
+								}
+							}
+						case *ssa.Phi:
+							follow(x, depth+1)
+						case *ssa.ChangeType, *ssa.Convert:
+							// template.HTML(text) and friends
+						case *ssa.Store:
+							if al, ok := x.Addr.(*ssa.Alloc); ok && x.Val == v {
+								for _, r2 := range *al.Referrers() {
+									if ld, ok := r2.(*ssa.UnOp); ok && ld.Op == token.MUL {
+										follow(ld, depth+1)
+									}
+								}
+							}
+						}
+					}
+				}
+				follow(call, 0)
+				if bad != "" {
+					r.Bad(rule, name, con, w.Pos(call.Pos()), bad)
+				} else {
+					r.Ok(rule, name, con, w.Pos(call.Pos()), "returned as the rendered string, or re-labelled as template.HTML")
+				}
+			}
+		}
+	}
+	if n == 0 {
+		r.Lost(rule, "String() of an output builder in the evaluator package")
+	}
+}
